@@ -48,6 +48,12 @@ def run(tier, seed, res, lean):
     if model_bad and not problems:
         res.violations.append(Violation('c06-correspondence', 'Graph.hash() and the model\'s hashGraph differ on an extracted graph',
                                         {'suite': 'S-GHASH', 'theorems': list(lean['theorems']), **model_bad[0]}, found_input=False))
+    # families of dataset-wide layers differing in ONE option (see C05), incl. a Join whose sides share a function: equal digest of
+    # what the layer derives (ids) => equal value
+    from .c05 import _option_shard
+    of = pmap(_option_shard, [(seed * 3571 + i + 9, 6 if tier == 'quick' else 40) for i in range(16)])
+    for p_ in [p_ for o in of for p_ in o[1]][:3]:
+        res.violations.append(Violation('c06-option-collision', p_['msg'][:400], {'suite': 'S-GHASH/options', **p_}))
     res.coverage.update({
         'evaluations': stats['variants'] + sum(o[0] for o in st), 'engine_level_static_hashes': sum(o[0] for o in st), 'distinct_nontrivial': stats['groups'], 'rule': RULE,
         'programs': stats['variants'], 'disagreements_checked': len(model_bad) + len(problems),
